@@ -6,6 +6,11 @@ CFG = dict(
     stages=[
         seq("asan", "asan", "c02_hash.c", 30000, 1000000, per_proc_timeout=3600),
         seq("rel", "rel", "c02_hash.c", 10000, 500000, per_proc_timeout=3600),
+        seq("asan_latin1", "asan", "c02_hash.c", 8000, 200000, per_proc_timeout=3600, env={"VERIF_LOCALE": "latin1"}),  # 8-bit libc locale
+        # reentrancy: 2..8 threads run PRNG-derived workloads on this module at once; each thread's digest of everything it
+        # observed must equal the digest of the same workload run alone (harness/mt_pure.c); p0 = rounds per thread
+        seq("mt_tsan", "tsan", "mt_pure.c", 32, 3200, mode="hash", params={0: 150}, wrap=True, leak=False),
+        seq("mt_rel", "rel", "mt_pure.c", 32, 3200, mode="hash", params={0: 1500}, leak=False),
     ],
     rule=("case = PRNG-derived history of 20-400 operations (put, create(+value assignment), find(+value assignment), "
           "remove with/without out-parameter, find+remove_element, iterator walk with PRNG-chosen iter_delete(destroy "
